@@ -57,13 +57,34 @@ def run(repo, res):
     res.check('C07-R1', 'search path order', ok, PROJECT, gp.lineno,
               'the module search path must list the project sources before sys.path; get_path returns `%s`' % detail,
               sample='get_path: %s' % detail)
-    for mname in ('get_module', 'list_packages'):
-        m = repo.method(PROJECT, 'Project', mname)
-        uses = [n for n in ast.walk(m) if isinstance(n, ast.Assign) and unparse(n.value) == 'self.get_path()']
-        loops = [n for n in ast.walk(m) if isinstance(n, ast.For) and uses and unparse(n.iter) == unparse(uses[0].targets[0])]
-        other = [n for n in ast.walk(m) if isinstance(n, ast.Attribute) and unparse(n) in ('sys.path', 'self.sources')]
-        res.check('C07-R1', '%s iterates the shared search path' % mname, bool(uses) and bool(loops) and not other, PROJECT,
-                  m.lineno, '%s must iterate self.get_path() (and nothing else) in order' % mname)
+    # list_packages, interpreted on a modelled file system: it must walk the same roots in the same table of suffixes
+    # (get_module's walk is decided by R2 below)
+    lp = repo.method(PROJECT, 'Project', 'list_packages')
+    itl = Interp(repo, facts)
+    itl.module_env(PROJECT)['SUFFIXES'] = ['.py', '.so']
+    itl.sys_path = ['<P1>']
+    itl.sys_modules = {'pkg.loaded': 1, 'pkg.loaded.deep': 1, 'pkgother.x': 1, 'other': 1, 'pkg': 1}
+    itl.fs_dirs = {'<S1>/pkg': ['a.py', '__init__.py', 'sub', 'data', 'c.txt', 'b.so', 'a.so'], '<P1>/pkg': ['z.py'],
+                   '<S1>': ['top.py', 'pkg'], '<S2>': [], '<P1>': ['pkg', 'lib.so']}
+    itl.fs = {'<S1>/pkg/sub/__init__.py', '<S1>/pkg/__init__.py', '<P1>/pkg/__init__.py'}
+    itl.reset_path([])
+    for order in ('fwd', 'rev'):
+        itl.set_order = order
+        for root, want in (('pkg', {'a', 'b', 'sub', 'z', 'loaded'}), ('', {'pkg', 'pkgother', 'other', 'top', 'lib'})):
+            try:
+                p = itl.instantiate(proj, [['<S1>', '<S2>']], {})
+                got = itl.call(itl.getattr(p, 'list_packages'), [root], {})
+                got = set(itl.iterate(got))
+                exc = None
+            except InterpRaise as e:
+                got, exc = None, e
+            except Uninterpretable as e:
+                raise AnalysisError('list_packages is outside the interpretable subset: %s' % e)
+            res.check('C07-R1', 'list_packages(%r) walks sources, sys.path and sys.modules [%s]' % (root, order), got == want, PROJECT,
+                      lp.lineno, 'on the modelled file system list_packages(%r) must give %s (modules of every root with a '
+                      'suffix of the shared table, packages with __init__.py, loaded modules); got %s' % (root, sorted(want),
+                                                                                                        exc or sorted(got)),
+                      sample='list_packages(%r) = %s' % (root, sorted(want)))
 
     # ---- R2 / R4 abstract interpretation of get_module -----------------------------------------------
     it = Interp(repo, facts)
@@ -211,13 +232,6 @@ def run(repo, res):
     res.count('dotted_name_cases', nsp, floor=25)
 
     # ---- R3 sibling agreement ------------------------------------------------------------------------
-    gm = repo.method(PROJECT, 'Project', 'get_module')
-    lp = repo.method(PROJECT, 'Project', 'list_packages')
-    for m in (gm, lp):
-        t = unparse(m)
-        res.check('C07-R3', '%s suffix table and package marker' % m.name, 'SUFFIXES' in t and "'__init__.py'" in t,
-                  PROJECT, m.lineno, '%s must use the shared SUFFIXES table and the __init__.py package marker' % m.name,
-                  nontrivial=False)
     tree = repo.tree(PROJECT)
     suf = [n for n in ast.walk(tree) if isinstance(n, ast.Assign) and unparse(n.targets[0]) == 'SUFFIXES']
     ok = any('all_suffixes()' in unparse(n.value) for n in suf)
